@@ -77,7 +77,8 @@ Inductive ev :=
 | ESet                                   (* evt_.set() *)
 | EResume (j : nat)                      (* joiner j's wait is resumed *)
 | EWait (ready : bool)                   (* async_wait started: ready = event already set *)
-| EStop                                  (* the stop bit of the scope's stop source is set *)
+| EStop (already : bool)                 (* stopSource_.request_stop(): sets the stop bit, or finds
+                                            it set already (then it does nothing) *)
 | ESync (v : Z)                          (* v0: the acquire load after the wait *)
 | ENestStart (i : nat)                   (* nested work of reference i started *)
 | ELeafDone (i : nat)                    (* nested work of reference i completed *)
@@ -175,7 +176,7 @@ Definition step_jn (j : nat) (s : st) : option (st * list ev) :=
               let x' := {| jprog := r; jmode_ := JReady; jwaited := jwaited x |} in
               Some ({| strict := strict s; w := w s; evt := evt s; waiters := waiters s;
                        stopped := true; sps := sps s; jns := set_nth j x' (jns s);
-                       joined := joined s |}, [EStop])
+                       joined := joined s |}, [EStop (stopped s)])
           | JWait :: r =>
               if evt s then
                 Some (upd_jn s j {| jprog := r; jmode_ := JReady; jwaited := true |},
